@@ -102,10 +102,23 @@ func goid() int64 {
 // CheckGoid enables the "hooked op reached from an unmanaged goroutine" assertion.
 var CheckGoid = true
 
+// quiet > 0 suppresses scheduling points (harness observations of hooked objects).
+var quiet int
+
+// Observe runs f without scheduling points; for harness reads of hooked state.
+func Observe(f func()) {
+	quiet++
+	defer func() { quiet-- }()
+	f()
+}
+
+// Yield is an explicit scheduling point of the harness.
+func Yield(label string) { Point(KYield, nil, label) }
+
 // Point is called by shims before a visible operation of the running thread.
 func Point(k Kind, obj any, label string) {
 	e := cur
-	if e == nil {
+	if e == nil || quiet > 0 {
 		return
 	}
 	t := e.running
